@@ -98,17 +98,17 @@ def _guarded(fn: Callable[[], gmp.mpfr]) -> gmp.mpfr:
 # TODO: some of these are unsafe
 _constant_exprs: dict[_Constant, Callable[[], gmp.mpfr]] = {
     _Constant.E : lambda : gmp.exp(1),
-    _Constant.LOG2E : lambda: gmp.log2(gmp.exp(1)), # TODO: may be inaccurate
-    _Constant.LOG10E : lambda: gmp.log10(gmp.exp(1)), # TODO: may be inaccurate
+    _Constant.LOG2E : lambda: gmp.log2(_guarded(lambda: gmp.exp(1))),
+    _Constant.LOG10E : lambda: gmp.log10(_guarded(lambda: gmp.exp(1))),
     _Constant.LN2 : gmp.const_log2,
     _Constant.LN10 : lambda: gmp.log(10),
     _Constant.PI : gmp.const_pi,
     # dividing an already rounded pi is exact, which would report pi / 2 as exact
     _Constant.PI_2 : lambda: _guarded(gmp.const_pi) / 2,
     _Constant.PI_4 : lambda: _guarded(gmp.const_pi) / 4,
-    _Constant.M_1_PI : lambda: 1 / gmp.const_pi(), # TODO: may be inaccurate
-    _Constant.M_2_PI : lambda: 2 / gmp.const_pi(), # TODO: may be inaccurate
-    _Constant.M_2_SQRTPI : lambda: 2 / gmp.sqrt(gmp.const_pi()), # TODO: may be inaccurate
+    _Constant.M_1_PI : lambda: 1 / _guarded(gmp.const_pi),
+    _Constant.M_2_PI : lambda: 2 / _guarded(gmp.const_pi),
+    _Constant.M_2_SQRTPI : lambda: 2 / _guarded(lambda: gmp.sqrt(gmp.const_pi())),
     _Constant.SQRT2: lambda: gmp.sqrt(2),
     _Constant.SQRT1_2: lambda: gmp.sqrt(gmp.div(gmp.mpfr(1), gmp.mpfr(2))),
 }
